@@ -97,6 +97,107 @@ def check_thinning(repo, chk):
     # the acceptance kernel single_sampling2 is decided by check_accept_bound (symbolic evaluation of all paths)
 
 
+class _Counter:
+    """stand-in for GenTest: hands out a fixed list of batch sizes and records the accepted-event counter"""
+
+    def __init__(self, sizes):
+        self.sizes, self.n_gen, self.log = list(sizes), 0, []
+
+
+def check_multi_sampling(repo, chk):
+    """multi_sampling interpreted as a whole on batches of event tokens with a scripted acceptance step"""
+    from ..sym import PyFunc, TensorList
+    import numpy as np
+    chk.rule("M-sem", "multi_sampling interpreted on batches of event tokens (scripted single_sampling2: the batch maxima 10, 20, 15, 30 make the bound grow twice): earlier events are thinned with keep <=> rnd * new / old < 1 for the bound `old` they were accepted with, every later acceptance step is given a bound >= the largest maximum seen, the returned sample is the thinned earlier events followed by the later batches, the accepted-event counter equals the size of that sample, and force cuts it to exactly N")
+    fn = repo.fn(GEN + "::multi_sampling")
+    ss2 = repo.fn(GEN + "::single_sampling2")
+    gt = repo.cls(GEN + "::GenTest")
+    R = sp.Rational
+    pattern = [R(1, 10), R(1, 2), R(3, 5), R(9, 10), R(3, 10)]
+    maxima = [sp.Integer(10), sp.Integer(20), sp.Integer(15), sp.Integer(30)]
+    sizes = [6, 6, 6, 6]
+    for force, want_n in ((False, None), (True, 9)):
+        counter = _Counter(sizes)
+        passed = []
+
+        def sampler(tr, a, k, n):
+            names = ss2.all_param_names()
+            b = dict(zip(names, a))
+            b.update(k)
+            kk = len(passed)
+            passed.append(b.get("max_weight"))
+            return TensorList((kk, j) for j in range(int(b["N"]))), maxima[kk]
+
+        def first(tr, d, args, kwargs, n):
+            last = d.split(".")[-1]
+            if last == "uniform":
+                shp = args[0]
+                m = int(shp[0]) if isinstance(shp, (tuple, list)) else int(shp)
+                return np.array([pattern[j % len(pattern)] for j in range(m)], dtype=object)
+            if last == "data_merge":
+                return TensorList(x for part in args for x in part)
+            if last == "data_shape":
+                return sp.Integer(len(args[0]))
+            if last == "data_mask":
+                m_ = np.asarray(args[1], dtype=object).reshape(-1)
+                if len(m_) != len(args[0]):
+                    raise AnalysisError("multi_sampling applies a mask of %d entries to %d events" % (len(m_), len(args[0])))
+                return TensorList(x for x, keep in zip(args[0], m_) if keep is sp.true or keep is True)
+            return NotImplemented
+
+        def attribute(tr, obj, attr, n):
+            if isinstance(obj, _Counter):
+                if attr == "generate":
+                    return PyFunc(lambda N: [sp.Integer(x) for x in obj.sizes])
+                if attr == "add_gen":
+                    return PyFunc(lambda v: (obj.log.append(("add", int(v))), setattr(obj, "n_gen", obj.n_gen + int(v)))[0])
+                if attr == "set_gen":
+                    return PyFunc(lambda v: (obj.log.append(("set", int(v))), setattr(obj, "n_gen", int(v)))[0])
+                if attr == "N_gen":
+                    return sp.Integer(obj.n_gen)
+            raise Unmodelled("attribute %s of %r" % (attr, obj))
+
+        hooks = {ss2.key: sampler, gt.key: lambda tr_, a_, k_, n_: counter, "numeric_call_first": first, "attribute": attribute}
+        for nm in ("data_merge", "data_shape", "data_mask"):
+            f_ = repo.fn_opt("tf_pwa/data.py::" + nm)
+            if f_ is not None:
+                hooks[f_.key] = (lambda nm_: (lambda tr_, a_, k_, n_: first(tr_, nm_, list(a_), k_, n_)))(nm)
+        tr = Translator(repo, hooks=hooks, max_depth=2)
+        try:
+            out = tr.call_fn(fn, ["PHSP", "AMP", sp.Integer(want_n or 1000)], {"force": force, "display": False})
+        except Unmodelled as e:
+            raise AnalysisError("multi_sampling cannot be interpreted: %s" % e)
+        if not (isinstance(out, tuple) and len(out) == 2 and isinstance(out[0], list)):
+            raise AnalysisError("multi_sampling no longer returns (data, status)")
+        got = list(out[0])
+        # reference: the bound each step was accepted with is what the code handed to that step
+        why = None
+        kept, bound_seen = [], None
+        for k, new in enumerate(maxima):
+            old = passed[k] if k < len(passed) else None
+            if k > 0 and old is None:
+                why = "acceptance step %d is not given the current bound" % (k + 1)
+                break
+            if k > 0 and sp.sympify(old) < max(maxima[:k]):
+                why = "acceptance step %d is given the bound %s, below the maximum weight %s already seen: later events are accepted with a probability that is too high" % (k + 1, old, max(maxima[:k]))
+                break
+            if old is not None and new > sp.sympify(old) and kept:
+                kept = [t for j, t in enumerate(kept) if pattern[j % len(pattern)] * new / sp.sympify(old) < 1]
+            kept = kept + [(k, j) for j in range(sizes[k])]
+        if why is None:
+            want = kept if not force else kept[:want_n]
+            if got != want:
+                if sorted(got) == sorted(want):
+                    why = "the sample is returned in another order than accepted"
+                else:
+                    why = "returns %d events %s..., the thinning rule keep <=> rnd*new/old < 1 gives %d events %s..." % (len(got), got[:8], len(want), want[:8])
+            elif counter.n_gen != len(kept):
+                why = "the accepted-event counter ends at %d but %d events are in the sample (counter log %s): the generation loop stops too early / too late" % (counter.n_gen, len(kept), counter.log)
+        chk.oblige("M-sem", "multi_sampling(force=%s): %d events returned, counter %d, bounds handed to the steps %s" % (force, len(got), counter.n_gen, [str(x) for x in passed]), why is None)
+        if why:
+            chk.violation("M-sem", fn.key, "force=%s" % force, "multi_sampling(force=%s) on four scripted batches: %s" % (force, why), file=GEN, line=fn.lineno)
+
+
 def check_accept_bound(repo, chk):
     """single_sampling2 evaluated symbolically on its four paths (importance function given or not, bound given or not):
     the quantity whose maximum defines the bound is the very quantity compared with rnd * bound in the accept test"""
